@@ -38,8 +38,8 @@ CLAIMED = {
             "DESIGN.md §4 C05, §1.1"),
     "C17": ("exploration",
             "deterministic simulation: histories of incremental edits over library-written bases, checked after every appended revision against a reference model, a byte-prefix oracle and an independent chain reader",
-            "Seeded search over (base document x writer configuration x history of 1-6 form fills / text-note add-update-remove x source plan x preset). After every applied edit: exact byte prefix (append-only), the library (through a short-reading source) and the independent reader both resolve every field and note to its newest value, the /Prev chain is strictly decreasing with monotone /Size and structurally valid sections, and every object outside the appended section's change set is unchanged.",
-            "Reference model {field -> value}, [notes] kept by the harness. The in-memory incremental editors are covered; the path-based page replacement / overlay writers (real filesystem, no seam) are not.",
+            "Seeded search over (base document x writer configuration x history of 1-6 form fills / text-note add-update-remove / page replacements x source plan x preset). After every applied edit: exact byte prefix (append-only), the library (through a short-reading source) and the independent reader both resolve every field and note to its newest value, the /Prev chain is strictly decreasing with monotone /Size and structurally valid sections, and every object outside the appended section's change set is unchanged.",
+            "Reference model {field -> value}, [notes] kept by the harness. Covers IncrementalFormFiller, IncrementalTextNoteEditor and PdfWriter::write_incremental_with_page_replacement (base through a real temp file as inert input). One open known finding: the PdfWriter incremental writers drop document-level catalog entries.",
             "DESIGN.md §4 C17"),
     "C19": ("fault_enumeration",
             "deterministic simulation: enumerated stored-image fault catalogue (D1-D12 + sampled pairs) on the xref section, intact run as reference",
